@@ -1713,3 +1713,47 @@ func BulkDoc(seed uint64, target int) GenDoc {
 	sb.WriteString("</div></body></html>")
 	return GenDoc{Bytes: []byte(sb.String()), URL: "http://example.com/bulk/2", Origin: fmt.Sprintf("bulk:%x/%d", seed, target), Features: []string{"bulk-page"}, UTF8: true}
 }
+
+// AsciiPrefixDoc is a page whose first `prefix` bytes are pure ASCII (a long inline style sheet
+// in <head>) and whose non-ASCII text (UTF-8) only comes afterwards: whatever looks at a
+// prefix of the input only (sniffing windows, buffers) sees something else than the whole.
+func AsciiPrefixDoc(seed uint64, prefix int) GenDoc {
+	r := Derive(seed, 0xa5c1)
+	var sb strings.Builder
+	sb.WriteString("<html><head><title>Le cafe de la gare</title><style>\n")
+	for sb.Len() < prefix {
+		fmt.Fprintf(&sb, ".c%d { color: #%06x; margin: %dpx; }\n", sb.Len(), r.Intn(1<<24), r.Intn(40))
+	}
+	sb.WriteString("</style></head><body><h1>Le café de la gare — übergrößen</h1>")
+	for p := 0; p < r.Range(3, 8); p++ {
+		sb.WriteString("<p>")
+		for w := 0; w < 70; w++ {
+			sb.WriteString(Pick(r, []string{"café ", "été ", "naïve ", "über ", "señor ", "文章 ", "“quoted” ", "plain ", "words ", "more "}))
+		}
+		sb.WriteString("</p>\n")
+	}
+	sb.WriteString("</body></html>")
+	return GenDoc{Bytes: []byte(sb.String()), URL: "http://example.com/cafe/page/2", Origin: fmt.Sprintf("asciiprefix:%x/%d", seed, prefix), Features: []string{"ascii-prefix"}, UTF8: true}
+}
+
+// PrefixSizes returns sizes (bytes) around the numbers the library's source mentions, within [lo,hi], at most n, spread out.
+func PrefixSizes(lo, hi, n int) []int {
+	var c []int
+	for _, v := range VocabNumbers {
+		if v >= lo && v <= hi {
+			c = append(c, v)
+		}
+	}
+	if len(c) > n {
+		// the largest ones first (a prefix longer than N is longer than every smaller N too), the rest spread out
+		top := c[len(c)-n/2:]
+		rest := c[:len(c)-n/2]
+		step := float64(len(rest)) / float64(n-n/2)
+		var d []int
+		for i := 0; i < n-n/2; i++ {
+			d = append(d, rest[int(float64(i)*step)])
+		}
+		c = append(d, top...)
+	}
+	return c
+}
